@@ -211,9 +211,10 @@ fn c05(tier: Tier, seed: u64, case: u64) -> CaseReport {
                 let mut owners: Vec<String> = eb.get(k).cloned().unwrap_or_default().iter().map(|(o, _)| o.clone()).collect();
                 owners.sort();
                 owners.dedup();
-                let mut want_up: Vec<String> = owners.iter().map(|o| format!("↖{}", titles.get(o).cloned().unwrap_or_default())).collect();
+                let mut want_up: Vec<String> = owners.iter().map(|o| format!("↖{}", norm(&titles.get(o).cloned().unwrap_or_default()))).collect();
                 want_up.sort();
-                let mut got_up: Vec<String> = labels.iter().filter(|l| l.0.starts_with('↖')).map(|l| norm(&l.0)).collect();
+                // (a title that begins with a code span holding a leading space: white space after the arrow is presentation)
+                let mut got_up: Vec<String> = labels.iter().filter(|l| l.0.starts_with('↖')).map(|l| format!("↖{}", norm(l.0.trim_start_matches('↖')))).collect();
                 got_up.sort();
                 if got_up != want_up {
                     rep.violate("lsp-container-hint", "clean", format!("note {}: container hints {:?}, expected {:?}", k, got_up, want_up), replay.clone());
